@@ -37,6 +37,9 @@ type Term struct {
 	ID   string               // AnchorBind / Bound: predicate id
 	Lo   *time.Time           // Bound
 	Hi   *time.Time
+	// Bound: a side may instead be taken from a time-valued binding that an
+	// EARLIER clause binds ("p"@[?lo,?hi])
+	LoName, HiName string
 
 	As, IDAlias, TypeAlias, AtAlias string // AS ?a / ID ?a / TYPE ?a / AT ?a
 }
@@ -106,15 +109,15 @@ func renderS(t Term) string {
 	return b.String()
 }
 
-func renderBound(id string, lo, hi *time.Time) string {
-	l, h := "", ""
-	if lo != nil {
-		l = FmtTime(*lo)
+func renderBound(t Term) string {
+	l, h := t.LoName, t.HiName
+	if t.Lo != nil {
+		l = FmtTime(*t.Lo)
 	}
-	if hi != nil {
-		h = FmtTime(*hi)
+	if t.Hi != nil {
+		h = FmtTime(*t.Hi)
 	}
-	return fmt.Sprintf("%q@[%s,%s]", id, l, h)
+	return fmt.Sprintf("%q@[%s,%s]", t.ID, l, h)
 }
 
 func renderP(t Term) string {
@@ -127,7 +130,7 @@ func renderP(t Term) string {
 	case AnchorBind:
 		fmt.Fprintf(&b, "%q@[%s]", t.ID, t.Name)
 	case Bound:
-		b.WriteString(renderBound(t.ID, t.Lo, t.Hi))
+		b.WriteString(renderBound(t))
 	}
 	if t.As != "" {
 		b.WriteString(" AS " + t.As)
@@ -158,7 +161,7 @@ func renderO(t Term) string {
 	case AnchorBind:
 		fmt.Fprintf(&b, "%q@[%s]", t.ID, t.Name)
 	case Bound:
-		b.WriteString(renderBound(t.ID, t.Lo, t.Hi))
+		b.WriteString(renderBound(t))
 	}
 	if t.As != "" {
 		b.WriteString(" AS " + t.As)
